@@ -233,6 +233,10 @@ def run_case(res, case):
                     ggexp = (J.T @ (Hg * Jv)).reshape(in_shape)
                     if not close(gg, ggexp, 1e-6 * (1.0 + float(onp.max(onp.abs(ggexp))))):
                         return viol("wrong_value", "make_ggnvp(%s) deviates: %s vs %s" % (gname, common.brief(onp.asarray(gg)), common.brief(ggexp)), "make_ggnvp")
+                gg1 = make_ggnvp(lambda a, x, b: f_ag(a, x, b, scale=scale), lambda y: 0.5 * anp.sum(y**2), 1)(a0, x0, b0)(vt)
+                ggexp1 = (J.T @ (J @ common.realify(vt))).reshape(in_shape)
+                if not close(gg1, ggexp1, 1e-6 * (1.0 + float(onp.max(onp.abs(ggexp1))))):
+                    return viol("wrong_value", "make_ggnvp(f_argnum=1) deviates", "make_ggnvp")
                 ops_checked.append("make_ggnvp")
             else:
                 res["counters"]["hessian_reference_irregular"] = res["counters"].get("hessian_reference_irregular", 0) + 1
